@@ -183,9 +183,12 @@ func BindAny(source, target am.Api) (string, error) {
 	fn := func(e *am.Event) {
 		tx := e.Transition()
 
-		// set if not the same
+		// set if not the same (an idle target only, queued mutations may still
+		// change it)
 		states := tx.TargetStates()
-		if am.StatesEqual(target.ActiveStates(nil), states) {
+		if targetIdle(target) &&
+			am.StatesEqual(target.ActiveStates(nil), states) {
+
 			return
 		}
 		target.Set(states, e.Args)
